@@ -83,6 +83,8 @@ def call_spec(funcs=tuple(FUNCS), coefs=None, max_deg=5, n_max=6, max_terms=7, s
                     st.sampled_from([[2.0, 0.5], [1.0, 1.0], [8.0, 0.125], [3.0, 0.0], [0.0, 0.0]])),
                 "init": st.one_of(st.lists(st.integers(0, 1), min_size=1, max_size=8), st.none()),
                 "in_order": gen.pick((True, 1), (False, 1)),
+                # labelled kinds: install another (documented) label -> integer mapping with set_mapping first
+                "remap": gen.pick((False, 3), (True, 1)) if kind in gen.LABELLED_KINDS else st.just(False),
                 "seed": seeds,
             })
         return st.integers(0, 9).flatmap(
@@ -117,6 +119,12 @@ def prepare(qv, spec):
             k = tuple(k)
             model[k] += 1
             model[k] -= 1
+    if spec.get("remap") and kind in gen.LABELLED_KINDS:
+        mp = model.mapping
+        n_ = len(mp)
+        if n_ >= 2:
+            # a bijection onto 0..n-1 that is neither the default nor ascending in insertion order
+            model.set_mapping({l: (i * 2 + 1) % n_ if n_ % 2 else n_ - 1 - i for l, i in mp.items()})
     ref_terms = dict(model)
     if kind == "dict":
         expected = set()
@@ -245,6 +253,8 @@ def classify(spec, expected, ref_terms):
           "seed=" + ("none" if spec["seed"] is None else "int")]
     if spec.get("stale"):
         cl.append("stale")
+    if spec.get("remap"):
+        cl.append("set_mapping")
     if not expected:
         cl.append("no_variables")
     if len(expected) == 1:
